@@ -213,7 +213,19 @@ def producer_layout(prod):
         out.append(unrecognised("COUNT", prod, role3, "no X.repeat(count, 1, 1) found"))
     elif ok:
         out.append(holds("COUNT", prod, role3, "repeat count == (end - start) * X.shape[0] on every path", reps[0]))
-    # negative end normalisation inside the producer must match python's convention used by the mask
+    # negative end: -1 means through the last position
+    role4 = "a negative end is normalised to L + 1 + end inside the producer"
+    nz = [s_ for s_ in prod.node.body if isinstance(s_, ast.Assign) and unparse(s_.targets[0]) == "end"]
+    if not nz:
+        out.append(unrecognised("COUNT", prod, role4, "normalisation of `end` not found"))
+    else:
+        t = unparse(nz[0].value)
+        if t in ("end if end >= 0 else X.shape[-1] + 1 + end", "X.shape[-1] + 1 + end if end < 0 else end"):
+            out.append(holds("COUNT", prod, role4, t, nz[0], nontrivial=False))
+        elif "X.shape[-1] + end" in t.replace("X.shape[-1] + 1 + end", "") or "X.shape[-1] - 1 + end" in t or "end > 0" in t:
+            out.append(violation("COUNT", prod, role4, "normalisation is `%s`: end=-1 no longer reaches the last position" % t, nz[0]))
+        else:
+            out.append(unrecognised("COUNT", prod, role4, t, nz[0]))
     return kinds, out
 
 
@@ -331,6 +343,22 @@ def mask_rule(sm, ai):
     if not ifexps:
         return [unrecognised("MASK", sm, role, "no `masked if not hypothetical else raw` return found")]
     out = []
+    # mode flag: attributions are returned when raw_outputs is False, (y0, y_hat) otherwise
+    role2 = "raw_outputs selects between the attribution and the raw (y0, y_hat) pair"
+    mode = [n for n in sm.node.body if isinstance(n, ast.If) and "raw_outputs" in unparse(n.test)]
+    tail = [n for n in sm.node.body if isinstance(n, ast.Return)]
+    if len(mode) == 1 and tail:
+        t = unparse(mode[0].test)
+        attr_in = any(isinstance(x, ast.Return) for x in ast.walk(mode[0])) and any("_attribution_score" in unparse(x) for x in mode[0].body)
+        raw_tail = unparse(tail[-1].value) == "(y0, y_hat)"
+        if t in ("raw_outputs == False", "not raw_outputs") and attr_in and raw_tail:
+            out.append(holds("MASK", sm, role2, "if %s: attribution; else (y0, y_hat)" % t, mode[0], nontrivial=False))
+        elif t in ("raw_outputs != False", "raw_outputs == True", "raw_outputs") and attr_in and raw_tail:
+            out.append(violation("MASK", sm, role2, "`%s` returns the attribution when raw outputs were requested and vice versa" % t, mode[0]))
+        else:
+            out.append(unrecognised("MASK", sm, role2, t))
+    else:
+        out.append(unrecognised("MASK", sm, role2, "mode branch not found"))
     for r in ifexps:
         e = r.value
         t = unparse(e.test)
@@ -359,7 +387,7 @@ def mask_rule(sm, ai):
                 return [violation("MASK", sm, role, "mask window is X[%s], expected X[:, :, start:end]" % ", ".join(idx), r)]
             continue
         return [violation("MASK", sm, role, "mask `%s` is not (a window of) X" % unparse(xs), r)]
-    return [holds("MASK", sm, role, "%d masked return(s)" % len(ifexps), ifexps[0])]
+    return out + [holds("MASK", sm, role, "%d masked return(s)" % len(ifexps), ifexps[0])]
 
 
 LEVEL_TEXT = ("Static layout typing: the flat order in which mutants are produced (itertools.product operand order and "
